@@ -145,7 +145,10 @@ def ranged_ref(ip, st, pv):
     return pv
 
 
-def run_iteration(ip, st, fr, H, var, N, placeholders, region=None, cont=None, runner=None):
+def run_iteration(ip, st, fr, H, var, N, placeholders, region=None, cont=None, runner=None, lenient=False):
+    """one symbolic iteration.  lenient: paths that leave the loop are dropped instead of refused --
+    only for *discovering* candidate closed forms; the summary itself is always computed strictly,
+    so a candidate is kept only if no iteration can leave the loop under it."""
     s = st.fork()
     v = Lin.sym(var)
     s.F.add_ge(v)
@@ -174,11 +177,13 @@ def run_iteration(ip, st, fr, H, var, N, placeholders, region=None, cont=None, r
         elif kind == "exit" and region is not None:
             # leaving a condition-driven loop: only through the negation of the continue condition
             extra = s2.conds[c0:]
-            if len(extra) <= 1:
+            if len(extra) <= 1 or lenient:
                 continue      # the only branch taken since the header is the loop condition itself
             raise Undecided("loop in %s has an exit other than its loop condition" % fr.body["path"])
         elif kind == "panic":
             st.oblig.append({"kind": "panic-path", "fn": fr.body["path"], "crate": fr.crate.name, "ok": False, "detail": "explicit panic reachable inside loop"})
+        elif lenient and kind in ("exit", "return"):
+            continue
         else:
             raise Undecided("early exit (%s) from loop in %s" % (kind, fr.body["path"]))
     if not res:
@@ -355,7 +360,7 @@ def _discover_affine(ip, st, fr, H, N, var, region, cont, runner):
     """{loc: affine description} of the sizes / slice references written in the loop body whose new
     value is the old one plus a constant (independent of the index and of every other carried value)."""
     try:
-        outsA, _, _, _ = run_iteration(ip, st, fr, H, var, N, {}, region, cont, runner)
+        outsA, _, _, _ = run_iteration(ip, st, fr, H, var, N, {}, region, cont, runner, lenient=True)
     except Undecided:
         return {}
     W = []
@@ -439,7 +444,7 @@ def _discover_affine(ip, st, fr, H, N, var, region, cont, runner):
         sG.F.add_ge(Lin.sym(nm))
         sG.F.add_ge(cnt0 - Lin.sym(nm) - 1)
     try:
-        outs, _, _, _ = run_iteration(ip, sG, fr, H, var, N, dict(ph), region, cont, runner)
+        outs, _, _, _ = run_iteration(ip, sG, fr, H, var, N, dict(ph), region, cont, runner, lenient=True)
     except Undecided:
         return dict(refseq)
     iter_aff = {}
